@@ -170,6 +170,66 @@ Proof.
     f_equal. apply (IH hs f _ mx o Hhs); [cbn [length] in Hkl; lia | lia | exact H].
 Qed.
 
+(* a complete hill list followed by something that is not a hill: nothing (the end of the data) or a complete
+   string record with another keyword: the loop reads all the hills, stops there without an error *)
+Definition tail_clean (t : list byte) : Prop :=
+  t = [] \/ exists k r, t = enc (IStr k) ++ r /\ item_ok (IStr k) /\ bytes_eqb k kw_hill = false.
+
+Lemma hills_then nv : forall hs fuel b1 t mx o, Forall (hill_ok nv) hs -> tail_clean t ->
+  (length hs < fuel)%nat -> blen (b1 ++ enc_hills hs ++ t) < W64 ->
+  read_hills fuel nv (rst (b1 ++ enc_hills hs ++ t) mx false false false (blen b1) o)
+  = (rst (b1 ++ enc_hills hs ++ t) mx false false false (blen (b1 ++ enc_hills hs)) o, false) /\
+  count_hills fuel nv (rst (b1 ++ enc_hills hs ++ t) mx false false false (blen b1) o) = length hs.
+Proof.
+  induction hs as [|h hs IH]; intros fuel b1 t mx o Hok Ht Hfuel H.
+  - cbn [enc_hills map concat app length] in *. rewrite app_nil_r.
+    destruct fuel as [|f]; [lia|]. cbn [read_hills count_hills]. rewrite rst_pos, rst_len.
+    destruct Ht as [->|(k & r & -> & Hk & Hne)].
+    + rewrite app_nil_r in *. pose proof (read_string_at_end b1 mx o H) as He.
+      destruct (read_string (rst b1 mx false false false (blen b1) o)) as [rr s'] eqn:E. cbn [fst] in He. subst rr.
+      split; [|reflexivity]. unfold rewind, rst. cbn [ms_buf ms_len ms_max ms_oob]. f_equal.
+      apply N.ltb_ge. lia.
+    + rewrite (read_string_mid b1 k r mx false false false o H). rewrite Hne.
+      split; [|reflexivity]. reflexivity.
+  - inversion Hok as [|? ? Hh Hhs]; subst.
+    destruct (hill_split nv h Hh) as (rest & -> & Hrest).
+    destruct fuel as [|f]; [cbn [length] in Hfuel; lia|].
+    rewrite enc_hills_cons, enc_all_cons in *. rewrite <- !app_assoc in *.
+    cbn [read_hills count_hills length]. rewrite rst_pos, rst_len.
+    rewrite (read_string_mid b1 kw_hill _ mx false false false o H). rewrite bytes_eqb_refl.
+    rewrite (app_assoc b1 (enc (IStr kw_hill))) in H |- *.
+    rewrite (read_fields_mid (hill_fields nv) rest (b1 ++ enc (IStr kw_hill)) _ mx o Hrest H).
+    rewrite (app_assoc (b1 ++ enc (IStr kw_hill)) (enc_all rest)) in H |- *.
+    destruct (IH f ((b1 ++ enc (IStr kw_hill)) ++ enc_all rest) t mx o Hhs Ht ltac:(cbn [length] in Hfuel; lia) H) as [Hr Hc].
+    rewrite Hr, Hc. split; [|reflexivity]. now rewrite <- !app_assoc.
+Qed.
+
+(* ... followed by the beginning of a string record that is cut short: the key read fails with bytes left *)
+Lemma hills_then_trunc nv : forall hs fuel b1 t m k mx o, Forall (hill_ok nv) hs ->
+  item_ok (IStr k) -> enc (IStr k) = t ++ m -> m <> [] -> t <> [] ->
+  (length hs < fuel)%nat -> blen (b1 ++ enc_hills hs ++ t) < W64 ->
+  snd (read_hills fuel nv (rst (b1 ++ enc_hills hs ++ t) mx false false false (blen b1) o)) = true /\
+  count_hills fuel nv (rst (b1 ++ enc_hills hs ++ t) mx false false false (blen b1) o) = length hs.
+Proof.
+  induction hs as [|h hs IH]; intros fuel b1 t m k mx o Hok Hk He Hm Ht Hfuel H.
+  - cbn [enc_hills map concat app length] in *.
+    destruct fuel as [|f]; [lia|]. cbn [read_hills count_hills]. rewrite rst_pos, rst_len.
+    destruct (read_string_trunc k b1 t m mx o Hk He Hm H) as (s' & Hr & _). rewrite Hr.
+    split; [|reflexivity]. cbn [snd]. apply N.ltb_lt. rewrite blen_app.
+    destruct t; [congruence | unfold blen; cbn [length]; lia].
+  - inversion Hok as [|? ? Hh Hhs]; subst.
+    destruct (hill_split nv h Hh) as (rest & -> & Hrest).
+    destruct fuel as [|f]; [cbn [length] in Hfuel; lia|].
+    rewrite enc_hills_cons, enc_all_cons in *. rewrite <- !app_assoc in *.
+    cbn [read_hills count_hills length]. rewrite rst_pos, rst_len.
+    rewrite (read_string_mid b1 kw_hill _ mx false false false o H). rewrite bytes_eqb_refl.
+    rewrite (app_assoc b1 (enc (IStr kw_hill))) in H |- *.
+    rewrite (read_fields_mid (hill_fields nv) rest (b1 ++ enc (IStr kw_hill)) _ mx o Hrest H).
+    rewrite (app_assoc (b1 ++ enc (IStr kw_hill)) (enc_all rest)) in H |- *.
+    destruct (IH f ((b1 ++ enc (IStr kw_hill)) ++ enc_all rest) t m k mx o Hhs Hk He Hm Ht ltac:(cbn [length] in Hfuel; lia) H) as [Hr Hc].
+    rewrite Hr, Hc. split; reflexivity.
+Qed.
+
 (* ---------------------------------------------------------------- one object *)
 Section BinReader.
   Variable cv_ok : list byte -> bool.
@@ -585,5 +645,143 @@ Section WholeFile.
       destruct (bias_cut matches params_ok expected_hills (o_b x) _ _ _ _ ((b1 ++ (concat (map cv_enc datas))) ++ (concat (map benc xs))) p3 q mx false (fun Hx => False_ind _ (Hx Hkind)) Hk Hc Hkw Hm Hpo Hits Hhs He3 Hq H Hnb3)
         as [Hr | (s & Hr)]; rewrite Hr; [reflexivity | reflexivity].
     - symmetry in He3. apply app_eq_nil in He3. destruct He3; congruence.
+  Qed.
+
+  (* ---- objects with hills anywhere in the state, when they announce their number of hills ---- *)
+  Definition counted (x : bobj) : Prop :=
+    plain x \/ (bb_kind (o_b x) = 1%nat /\ expected_hills (o_b x) (o_conf x) = Some (length (o_hs x))).
+  Definition not_hill_kw (x : bobj) : Prop := bytes_eqb (o_kwd x) kw_hill = false.
+
+  Lemma length_hills_le nv hs : Forall (hill_ok nv) hs -> (length hs <= length (enc_hills hs))%nat.
+  Proof.
+    induction 1 as [|h hs Hh Hhs IH]; [cbn; lia|].
+    rewrite enc_hills_cons, app_length. destruct (hill_split _ h Hh) as (rest & -> & _).
+    rewrite enc_all_cons, app_length. cbn [enc length]. rewrite app_length, le64_length. lia.
+  Qed.
+
+  Lemma counted_mid_clean x b1 t mx o : obj_ok x -> bb_kind (o_b x) = 1%nat ->
+    expected_hills (o_b x) (o_conf x) = Some (length (o_hs x)) -> tail_clean t ->
+    blen (b1 ++ benc x ++ t) < W64 ->
+    bias_read (o_b x) (rst (b1 ++ benc x ++ t) mx false false false (blen b1) o)
+    = BOk (rst (b1 ++ benc x ++ t) mx false false false (blen (b1 ++ benc x)) o) false.
+  Proof.
+    intros (Hk & Hc & Hkw & Hm & Hp & Hits & Hhs) Hkind Hexp Ht H. unfold benc, enc_obj in *.
+    rewrite <- !app_assoc in *.
+    rewrite (bias_header_mid matches params_ok expected_hills (o_b x) _ _ b1 _ mx o Hk Hc Hkw Hm Hp H).
+    unfold BinReadModel.read_data. rewrite (app_assoc b1 (enc_header (o_kwd x) (o_conf x))) in *.
+    rewrite (read_fields_mid _ _ (b1 ++ enc_header (o_kwd x) (o_conf x)) _ mx o Hits H).
+    rewrite (app_assoc (b1 ++ enc_header (o_kwd x) (o_conf x)) (enc_all (o_its x))) in *.
+    rewrite Hkind, Hexp. cbn [ms_buf rst].
+    pose proof (length_hills_le _ _ Hhs) as Hle.
+    destruct (hills_then (bb_nvar (o_b x)) (o_hs x)
+                (S (length (((b1 ++ enc_header (o_kwd x) (o_conf x)) ++ enc_all (o_its x)) ++ enc_hills (o_hs x) ++ t)))
+                ((b1 ++ enc_header (o_kwd x) (o_conf x)) ++ enc_all (o_its x)) t mx o Hhs Ht) as [Hr Hcn];
+      [rewrite !app_length; lia | exact H |].
+    rewrite Hcn, Nat.eqb_refl, Hr. now rewrite <- !app_assoc.
+  Qed.
+
+  Lemma counted_mid_trunc x b1 t m k mx o : obj_ok x -> bb_kind (o_b x) = 1%nat ->
+    expected_hills (o_b x) (o_conf x) = Some (length (o_hs x)) ->
+    item_ok (IStr k) -> enc (IStr k) = t ++ m -> m <> [] -> t <> [] ->
+    blen (b1 ++ benc x ++ t) < W64 ->
+    exists s, bias_read (o_b x) (rst (b1 ++ benc x ++ t) mx false false false (blen b1) o) = BOk s true.
+  Proof.
+    intros (Hk & Hc & Hkw & Hm & Hp & Hits & Hhs) Hkind Hexp Hik He Hmn Htn H. unfold benc, enc_obj in *.
+    rewrite <- !app_assoc in *.
+    rewrite (bias_header_mid matches params_ok expected_hills (o_b x) _ _ b1 _ mx o Hk Hc Hkw Hm Hp H).
+    unfold BinReadModel.read_data. rewrite (app_assoc b1 (enc_header (o_kwd x) (o_conf x))) in *.
+    rewrite (read_fields_mid _ _ (b1 ++ enc_header (o_kwd x) (o_conf x)) _ mx o Hits H).
+    rewrite (app_assoc (b1 ++ enc_header (o_kwd x) (o_conf x)) (enc_all (o_its x))) in *.
+    rewrite Hkind, Hexp. cbn [ms_buf rst].
+    pose proof (length_hills_le _ _ Hhs) as Hle.
+    destruct (hills_then_trunc (bb_nvar (o_b x)) (o_hs x)
+                (S (length (((b1 ++ enc_header (o_kwd x) (o_conf x)) ++ enc_all (o_its x)) ++ enc_hills (o_hs x) ++ t)))
+                ((b1 ++ enc_header (o_kwd x) (o_conf x)) ++ enc_all (o_its x)) t m k mx o Hhs Hik He Hmn Htn) as [Hr Hcn];
+      [rewrite !app_length; lia | exact H |].
+    rewrite Hcn, Nat.eqb_refl.
+    destruct (read_hills _ _ _) as [s3 e] eqn:E. cbn [snd] in Hr. subst e. now exists s3.
+  Qed.
+
+  Lemma benc_starts x : exists r, benc x = enc (IStr (o_kwd x)) ++ r.
+  Proof. unfold benc, enc_obj, enc_header. rewrite <- !app_assoc. eexists. reflexivity. Qed.
+
+  (* the data end inside (or right before) one of these objects: error *)
+  Lemma objs_cut : forall xs rest b1 p q mx o err, Forall obj_ok xs -> Forall counted xs -> Forall not_hill_kw xs ->
+    concat (map benc xs) = p ++ q -> q <> [] -> blen (b1 ++ p) < W64 ->
+    read_biases (map o_b xs ++ rest) (rst (b1 ++ p) mx false false false (blen b1) o) err = true.
+  Proof.
+    induction xs as [|x xs IH]; intros rest b1 p q mx o err Hok Hcn Hnh He Hq H.
+    - cbn in He. symmetry in He. apply app_eq_nil in He. destruct He; congruence.
+    - inversion Hok as [|? ? Hx Hxs]; subst. inversion Hcn as [|? ? Hcx Hcxs]; subst. inversion Hnh as [|? ? Hnx Hnxs]; subst.
+      cbn [map concat app BinReadModel.read_biases] in *.
+      destruct (Nat.le_gt_cases (length (benc x)) (length p)) as [Hle|Hgt].
+      + destruct (prefix_split _ _ _ _ He Hle) as (p2 & Hp & He2). subst p.
+        destruct Hcx as [Hpl | [Hkind Hexp]].
+        * rewrite (plain_mid x b1 p2 mx o Hx Hpl H). rewrite (app_assoc b1 (benc x) p2) in *.
+          exact (IH rest _ p2 q mx o _ Hxs Hcxs Hnxs He2 Hq H).
+        * (* what follows the hills: nothing, a complete keyword, or a keyword cut short *)
+          destruct xs as [|y ys]; [cbn in He2; symmetry in He2; apply app_eq_nil in He2; destruct He2; congruence|].
+          inversion Hxs as [|? ? Hy Hys]; subst. inversion Hnxs as [|? ? Hny Hnys]; subst.
+          destruct (benc_starts y) as (ry & Hby).
+          cbn [map concat] in He2. rewrite Hby, <- app_assoc in He2.
+          destruct Hy as (Hky & _).
+          destruct p2 as [|c0 p2'] eqn:Ep2.
+          -- rewrite (counted_mid_clean x b1 [] mx o Hx Hkind Hexp (or_introl eq_refl) H).
+             rewrite orb_false_r. rewrite (app_assoc b1 (benc x) []) in *.
+             apply (IH rest _ [] q mx o _ Hxs Hcxs Hnxs); [cbn [map concat]; rewrite Hby, <- app_assoc; exact He2 | exact Hq | exact H].
+          -- rewrite <- Ep2 in *.
+             destruct (Nat.le_gt_cases (length (enc (IStr (o_kwd y)))) (length p2)) as [Hle2|Hgt2].
+             ++ destruct (prefix_split _ _ _ _ He2 Hle2) as (r & Hp2 & Hr).
+                assert (Htc : tail_clean p2) by (right; exists (o_kwd y), r; repeat split; [exact Hp2 | exact Hky | exact Hny]).
+                rewrite (counted_mid_clean x b1 p2 mx o Hx Hkind Hexp Htc H).
+                rewrite orb_false_r. rewrite (app_assoc b1 (benc x) p2) in *.
+                apply (IH rest _ p2 q mx o _ Hxs Hcxs Hnxs); [cbn [map concat]; rewrite Hby, <- app_assoc; exact He2 | exact Hq | exact H].
+             ++ symmetry in He2. destruct (prefix_split _ _ _ _ He2) as (m & Hpm & Hm); [lia|].
+                assert (Hmn : m <> []) by (intros ->; rewrite app_nil_r in Hpm; rewrite Hpm in Hgt2; lia).
+                assert (Htn : p2 <> []) by (rewrite Ep2; discriminate).
+                destruct (counted_mid_trunc x b1 p2 m (o_kwd y) mx o Hx Hkind Hexp Hky Hpm Hmn Htn H) as (s3 & Hr).
+                rewrite Hr. rewrite orb_true_r. apply read_biases_sticky.
+      + symmetry in He. destruct (prefix_split _ _ _ _ He) as (m & Hp & Hm); [lia|].
+        assert (Hmn : m <> []) by (intros ->; rewrite app_nil_r in Hp; rewrite Hp in Hgt; lia).
+        destruct Hx as (Hk & Hc & Hkw & Hm' & Hpo & Hits & Hhs).
+        assert (Hp' : enc_obj (o_kwd x) (o_conf x) (o_its x) (o_hs x) = p ++ m) by exact Hp.
+        assert (Hres : bias_read (o_b x) (rst (b1 ++ p) mx false false false (blen b1) o) = BErr \/
+                       exists s, bias_read (o_b x) (rst (b1 ++ p) mx false false false (blen b1) o) = BOk s true).
+        { destruct Hcx as [[Hkind Hnil] | [Hkind Hexp]].
+          - assert (Hnb : forall k, p <> enc_header (o_kwd x) (o_conf x) ++ enc_all (o_its x) ++ enc_hills (firstn k (o_hs x))).
+            { intros k Hk3. rewrite Hnil in *. rewrite firstn_nil in Hk3. unfold enc_obj in Hp'. rewrite <- Hk3 in Hp'.
+              apply (f_equal (@length byte)) in Hp'. rewrite app_length in Hp'. destruct m; [congruence | cbn [length] in Hp'; lia]. }
+            exact (bias_cut matches params_ok expected_hills (o_b x) _ _ _ _ b1 p m mx o (fun _ => Hnil) Hk Hc Hkw Hm' Hpo Hits Hhs Hp' Hmn H Hnb).
+          - exact (bias_cut_counted matches params_ok expected_hills (o_b x) _ _ _ _ b1 p m mx o Hkind Hk Hc Hkw Hm' Hpo Hexp Hits Hhs Hp' Hmn H). }
+        destruct Hres as [Hr | (s & Hr)]; rewrite Hr; [reflexivity | rewrite orb_true_r; apply read_biases_sticky].
+  Qed.
+
+  (* a binary state whose objects with hills all announce their number of hills (states written since the fix),
+     wherever they are in the state: the data end anywhere after the global block and before the end: error.
+     No exception. *)
+  Lemma binary_state_cut_counted gconf datas xs p q :
+    item_ok (IStr gconf) -> Forall cv_data_ok datas -> Forall obj_ok xs -> Forall counted xs -> Forall not_hill_kw xs ->
+    concat (map cv_enc datas) ++ concat (map benc xs) = p ++ q ->
+    q <> [] -> blen (magic ++ genc gconf ++ p) < W64 ->
+    load_bin cv_ok matches params_ok expected_hills (length datas) (map o_b xs) (magic ++ genc gconf ++ p) = true.
+  Proof.
+    intros Hg Hcv Hxs Hcn Hnh He Hq H. unfold load_bin.
+    change (input_stream (magic ++ genc gconf ++ p))
+      with (rst ([] ++ magic ++ (genc gconf ++ p)) (blen (magic ++ genc gconf ++ p)) false false false (blen (@nil byte)) false).
+    change 4 with (blen magic).
+    rewrite (read_object_mid [] magic (genc gconf ++ p) _ false false false false H).
+    rewrite bytes_eqb_refl. cbn [app].
+    rewrite (skip_global_mid gconf magic p _ false Hg H).
+    rewrite (app_assoc magic (genc gconf) p) in *.
+    set (b1 := magic ++ genc gconf) in *. set (mx := blen (b1 ++ p)).
+    destruct (Nat.le_gt_cases (length (concat (map cv_enc datas))) (length p)) as [Hle|Hgt].
+    2:{ symmetry in He. destruct (prefix_split _ _ _ _ He) as (m & Hp & Hm); [lia|].
+        assert (Hmn : m <> []) by (intros ->; rewrite app_nil_r in Hp; rewrite Hp in Hgt; lia).
+        now rewrite (colvars_cut datas b1 p m mx false Hcv Hp Hmn H). }
+    destruct (prefix_split _ _ _ _ He Hle) as (p2 & Hp & He2). subst p.
+    rewrite (colvars_mid datas b1 p2 mx false Hcv H).
+    rewrite (app_assoc b1 (concat (map cv_enc datas)) p2) in *.
+    rewrite <- (app_nil_r (map o_b xs)).
+    exact (objs_cut xs [] (b1 ++ concat (map cv_enc datas)) p2 q mx false false Hxs Hcn Hnh He2 Hq H).
   Qed.
 End WholeFile.
